@@ -24,12 +24,14 @@ def result_of(p):
     raise Infra('no RESULT line from harness: %s %s' % (p.stdout[-300:], p.stderr[-300:]))
 
 
-def strace(exe, args, logp, inject=None):
+def strace(exe, args, logp, inject=None, fsize=None):
     cmd = ['strace', '-f', '-o', logp, '-e', 'trace=' + TRACE]
     if inject:
         cmd += ['-e', 'inject=%s:signal=KILL:when=%d' % inject]
     cmd += [exe] + args
     env = dict(os.environ, GOMAXPROCS='1', VERIF_SEED='1')
+    if fsize:
+        env['VERIF_FSIZE'] = str(fsize)
     return subprocess.run(cmd, stdout=subprocess.PIPE, stderr=subprocess.PIPE, text=True, env=env, timeout=120)
 
 
@@ -83,13 +85,13 @@ def parse(logp, store):
 
 
 def proj(r):
-    return (r['ok'], tuple(r['path']), r['idx'], tuple(r['flags']), r['ncode'], r['used'], r['frames'])
+    return (r['ok'], tuple(r['path']), r['idx'], tuple(r['flags']), r['ncode'], r['used'], r['frames'], r.get('digest', ''))
 
 
 def run(tier):
     out = Outcome(PID, tier, level='fault_enumeration')
     thorough = tier == 'thorough'
-    out.assumptions = ['process death = SIGKILL delivered by strace on entry to the chosen system call (a process death cannot tear a single write(2); torn writes are explored in the model only)',
+    out.assumptions = ['process death = SIGKILL delivered by strace on entry to the chosen system call; death after a PARTIAL write is produced for real with RLIMIT_FSIZE (the kernel accepts q bytes, the process is killed on entry to the continuing write); torn writes at arbitrary offsets are additionally explored in the model',
                        'the saver is single-threaded for file I/O (GOMAXPROCS=1, locked OS thread); every injected run is checked against its own strace log',
                        'old/new states are consecutive states of a real persisted session of a descending program with growing cache contents']
     if not shutil.which('strace'):
@@ -97,8 +99,8 @@ def run(tier):
     exe = core.build_harness()
     d = core.scratch('verif-c12-')
     w = core.spec_copy()
-    nstates = 6 if thorough else 3
-    inputs = ['', '1', '1', '1', '0', '1', '1', '0', '1'][:nstates + 2]
+    nstates = 7 if thorough else 4
+    inputs = ['', '1', '2', '5', '1', '2', '0', '5', '1', '1'][:nstates + 2]      # 2 / 5: stay on the node, same-length record with different content
     sess, neigh = 'alice', 'bob'
     base = os.path.join(d, 'base')
     os.makedirs(base)
@@ -117,6 +119,8 @@ def run(tier):
         if p.returncode != 0:
             raise Infra('phase 1 run failed: %s' % p.stderr[-400:])
         new = result_of(vh(['fs-load', a, sess]))
+        old_bytes = open(os.path.join(base, '@' + sess), 'rb').read()
+        new_bytes = open(os.path.join(a, '@' + sess), 'rb').read()
         if proj(new) == proj(old):
             raise Infra('old and new state do not differ')
         entries = parse(logp, a)
@@ -196,6 +200,40 @@ def run(tier):
             elif not cont_ok:
                 out.violation('C12_Continues: after a crash before %s the session was %s but the next request did not continue from it: %s' % (name, cls, cont), case)
             shutil.rmtree(b, ignore_errors=True)
+        # ---- phase 3: a real PARTIAL write followed by process death: RLIMIT_FSIZE makes the kernel accept only the first
+        # q bytes of the record write (short write); the process is killed on entry to the write call that would continue it
+        for j, (name, ordinal, op, raw) in enumerate(store_entries):
+            if op['op'] != 'write' or op['n'] < 4:
+                continue
+            qs = {1, op['n'] // 2, op['n'] - 1}
+            if len(old_bytes) == len(new_bytes):
+                # cut inside the span where the two records differ, otherwise a partial write is indistinguishable from none / all
+                diff = [i for i in range(len(old_bytes)) if old_bytes[i] != new_bytes[i]]
+                if diff:
+                    qs |= {diff[0] + 1, (diff[0] + diff[-1]) // 2 + 1, diff[-1]}
+            for q in sorted(x for x in qs if 0 < x < op['n']):
+                b = os.path.join(d, 'p%d_%d_%d' % (k, j, q))
+                shutil.copytree(base, b)
+                ilog = os.path.join(d, 'part-%d-%d-%d.log' % (k, j, q))
+                p = strace(exe, ['fs-req', b, sess, inputs[k + 1]], ilog, inject=(name, ordinal + 1), fsize=q)
+                txt = open(ilog).read()
+                ients = parse(ilog, b)
+                first = [e for e in ients if e[0] == name and e[1] == ordinal]
+                if 'killed by SIGKILL' not in txt or not first or first[0][2] is None or first[0][2]['op'] != 'write' or first[0][2]['n'] != q:
+                    raise Infra('partial-write injection did not behave as intended (write #%d, %d bytes): %s' % (ordinal, q, [e[3][:100] for e in first]))
+                got = result_of(vh(['fs-load', b, sess]))
+                cls = 'OLD' if proj(got) == proj(old) else 'NEW' if proj(got) == proj(new) else ('MISSING' if 'notfound' in got['err'] else 'CORRUPT' if not got['ok'] else 'MIXED')
+                npoints += 1
+                classes.add(('partial-write', cls))
+                neigh_ok = open(os.path.join(b, '@' + neigh), 'rb').read() == neigh_bytes
+                case = dict(property=PID, kind='fs-crash', state=k, inputs=inputs[:k + 3], crash_after_partial_write=dict(bytes_written=q, of=op['n'], ordinal=ordinal), recovered=got, cls=cls,
+                            old=old, new=new, neighbour_untouched=neigh_ok)
+                if cls not in ('OLD', 'NEW'):
+                    out.violation('C12_Atomic: process died after %d of %d bytes of the record write while saving state #%d: recovery finds a %s record (%s)' % (
+                        q, op['n'], k + 1, cls, got['err'][:60] or 'loads, but is neither the old nor the new state'), case)
+                elif not neigh_ok:
+                    out.violation('C12_OthersUntouched: neighbour record changed by a partial write', case)
+                shutil.rmtree(b, ignore_errors=True)
         # advance base to state k+1 happens at loop start
         for x in (a, co, cn):
             shutil.rmtree(x, ignore_errors=True)
